@@ -1,5 +1,8 @@
 """Minimal reproductions of the C04 findings on the unchanged tree.
-Run: /venv/bin/python deliver/repro_c04.py   (prints one line per finding; exit code 0)"""
+Run: /venv/bin/python notes/C04-repro_c04.py   (prints one line per finding; exit code 0)
+
+State after the /repo repairs: C04-lambda-uncached and C04-lambda-empty-doc (2afb524), C04-doc-quote,
+C04-doc-backslash and C04-doc-cr (2b72506) print "same" (fixed); the other seven still print "DIFFERS"."""
 import os
 import sys
 import tempfile
